@@ -29,6 +29,10 @@ def kinds_in(s):
     return ks
 
 
+THOROUGH_CONFIGS = [C.NO_CHARWISE, C.NO_CACHE, C.NO_FIX, C.NO_TAG, C.MINIMAL]
+QUICK_CONFIGS = [C.NO_CHARWISE, C.NO_CACHE, C.NO_FIX]
+
+
 def run(chk):
     w = C.world_for(chk)
     # the function a trained model computes is the one Predictor::predict evaluates: every structural scoring rule of C01
@@ -36,6 +40,9 @@ def run(chk):
     # necessary condition here as well
     from . import c01 as _c01
     _c01.run(chk)
+    if chk.config != "W":
+        # feature configurations of crate vaporetto alone: the predictor side only (the trainer is not compiled there)
+        return
     from . import ctors as _ctors9
     _ctors9.run(chk, w, only=["model::Model::new", "DictModel::new"])
     for rid, txt in (("R09.1", "kind consistency char<->type"), ("R09.2", "arm forms and twins"),
